@@ -482,6 +482,50 @@ async fn exec_op(st: &mut St, op: &Value, obs: &mut Vec<Value>) {
             obs.push(json!({"k":"conc","n":n,"ok":okn,"results":results}));
             quiesce(obs).await;
         }
+        "conc2" => {
+            // several client threads, each with its own action and target in one process, released together by a barrier
+            let pid = s(1);
+            let items = a.get(2).and_then(|x| x.as_array()).cloned().unwrap_or_default();
+            let n = items.len();
+            let barrier = Arc::new(std::sync::Barrier::new(n.max(1)));
+            let handle = tokio::runtime::Handle::current();
+            let mut joins = Vec::new();
+            let mut tids = Vec::new();
+            for it in items.iter() {
+                let event = it[0].as_str().unwrap_or("").to_string();
+                let tid = resolve_task(st, &pid, it.get(1).unwrap_or(&Value::Null));
+                let opts = vars_of(it.get(2).unwrap_or(&Value::Null));
+                tids.push(tid.clone());
+                let exec = st.engine.executor();
+                let (pid, handle, barrier) = (pid.clone(), handle.clone(), barrier.clone());
+                joins.push(std::thread::spawn(move || {
+                    let _g = handle.enter();
+                    let act = exec.act();
+                    barrier.wait();
+                    let r = match event.as_str() {
+                        "next" | "complete" => act.complete(&pid, &tid, &opts),
+                        "submit" => act.submit(&pid, &tid, &opts),
+                        "skip" => act.skip(&pid, &tid, &opts),
+                        "remove" => act.remove(&pid, &tid, &opts),
+                        "abort" => act.abort(&pid, &tid, &opts),
+                        "error" => act.error(&pid, &tid, &opts),
+                        "back" => act.back(&pid, &tid, &opts),
+                        "cancel" => act.cancel(&pid, &tid, &opts),
+                        _ => Err(acts::ActError::Action(format!("bad event {event}"))),
+                    };
+                    match r {
+                        Ok(_) => "ok".to_string(),
+                        Err(e) => classify(&e.to_string()).to_string(),
+                    }
+                }));
+            }
+            let results: Vec<String> = joins
+                .into_iter()
+                .map(|j| j.join().unwrap_or_else(|_| "panic".to_string()))
+                .collect();
+            obs.push(json!({"k":"conc2","pid":pid,"tids":tids,"results":results}));
+            quiesce(obs).await;
+        }
         "swarm" => {
             // many processes at once: start them (in parallel client threads when asked), then answer, round by round,
             // one open interrupt per process (smallest (nid, tid)), all processes concurrently
